@@ -1,18 +1,9 @@
 (* C01 — comparison functions used by the generated correspondence files. *)
 From Coq Require Import List ZArith Bool.
-From T4V Require Import Base.Cases C01.Model.
+From T4V Require Import Base.Cases C01.Model C01.Printer.
 Import ListNotations.
 Open Scope Z_scope.
 
-Fixpoint insert_by {X} (le : X -> X -> bool) (x : X) (l : list X) : list X :=
-  match l with
-  | [] => [x]
-  | y :: r => if le x y then x :: l else y :: insert_by le x r
-  end.
-Definition isort {X} (le : X -> X -> bool) (l : list X) : list X :=
-  fold_right (insert_by le) [] l.
-
-Definition canon (l : list Z) : list Z := isort Z.leb (dedup l).
 Definition canon_dict (d : dict Z) : dict Z := isort (fun a b => fst a <=? fst b) d.
 
 (* canonical volume: sorted PLUS, sorted MINUS, operator + operands in order,
@@ -52,8 +43,9 @@ Inductive observed :=
       (before : list (Z * cvol))         (* dic_vol_t4 after construct_volume_t4's loop *)
       (sc cc : list (Z * Z))             (* the two caches, sorted by key *)
       (final : list (Z * cvol))          (* after renumber/remove_empty/remove_unused *)
-      (file : option (list (Z * cvol))). (* what the writer emits (skipped cells dropped);
+      (file : option (list (Z * cvol)))  (* what the writer emits (skipped cells dropped);
                                             None when the writer was not run *)
+      (lines : option (list (list tok))). (* the VOLU lines as printed, token by token *)
 
 (* one case = a whole run of the Boolean pipeline *)
 Definition case :=
@@ -70,19 +62,24 @@ Definition run_case (c : case) :=
       | Err e => OErr e
       | Ok fin =>
           OOk (cnt s) (ctable (vols s)) (canon_dict (scache s)) (canon_dict (ccache s))
-              (ctable fin) (Some (ctable (written skipped fin)))
+              (ctable fin) (Some (ctable (written skipped fin))) (Some (print_table skipped fin))
       end
   end.
 
 Definition check_case (c : case) : bool :=
   match run_case c, snd c with
   | OErr e, OErr e' => err_eqb e e'
-  | OOk n1 b1 sc1 cc1 f1 w1, OOk n2 b2 sc2 cc2 f2 w2 =>
+  | OOk n1 b1 sc1 cc1 f1 w1 l1, OOk n2 b2 sc2 cc2 f2 w2 l2 =>
       (n1 =? n2) && table_eqb b1 b2 && list_eqb zz_eqb sc1 sc2 && list_eqb zz_eqb cc1 cc2
       && table_eqb f1 f2
       && match w1, w2 with
          | _, None => true
          | Some a, Some b => table_eqb a b
+         | None, Some _ => false
+         end
+      && match l1, l2 with
+         | _, None => true
+         | Some a, Some b => list_eqb (list_eqb tok_eqb) a b
          | None, Some _ => false
          end
   | _, _ => false
